@@ -3,6 +3,8 @@ package main
 import (
 	"encoding/hex"
 	"fmt"
+	"reflect"
+	"sort"
 	"strconv"
 
 	"github.com/golang/protobuf/proto"
@@ -117,11 +119,17 @@ func numBig(tier string) int {
 	if tier == "thorough" {
 		return 24
 	}
-	return 4
+	return 6
 }
 
 func genBig(r *RNG, j int) KeySet {
-	switch j % 4 {
+	switch j % 6 {
+	case 4: // short-node table of exactly 9 bits
+		return KeySet{"big:steer-short-9", genSteerShort(9, 30+r.Intn(8))}
+	case 5: // ... and of 10 bits
+		return KeySet{"big:steer-short-10", genSteerShort(10, 50+r.Intn(8))}
+	}
+	switch j % 6 {
 	case 0: // > 65535 nodes, 257-bit nodes two levels deep
 		var k []string
 		n := r.Range(66000, 80000)
@@ -132,7 +140,7 @@ func genBig(r *RNG, j int) KeySet {
 	case 1: // thousands of 257-bit nodes
 		return KeySet{"big:dense-alpha-d4", genDenseAlpha(r, r.Range(11, 16), 4, r.Intn(50))}
 	case 2: // short-node tables of 8..10 bits
-		switch (j / 4) % 3 {
+		switch (j / 6) % 3 {
 		case 0:
 			return KeySet{"big:repeats-120x48000", genRepeats(r, 48000, 120, 3)}
 		case 1:
@@ -736,6 +744,41 @@ func (e *lookupEnv) oracleC18() *trie.Stat {
 			bad("no-inner")
 		}
 	}
+	// The level table is documented (slimtrie_level.go) as node counts up to and
+	// including each level, node ids running level by level. GetID names the
+	// leaf of every retained key, so the leaves whose ids lie in a level's id
+	// range must be as many as the table says that level has - per level, not
+	// only in total.
+	if nk := len(m.RetKeys); nk > 0 && nk <= 30000 && !e.survivor {
+		perLevel := make([]int32, len(s.Levels))
+		ok := true
+		pv, _ := try(func() {
+			for _, k := range m.RetKeys {
+				id := e.st.GetID(k)
+				if id < 0 {
+					ok = false // C01's finding, not ours
+					return
+				}
+				lv := sort.Search(len(s.Levels), func(i int) bool { return s.Levels[i].Total > id })
+				if lv >= len(s.Levels) {
+					bad("leaf-id-beyond-last-level")
+					ok = false
+					return
+				}
+				perLevel[lv]++
+			}
+		})
+		if pv == nil && ok {
+			for i := 1; i < len(s.Levels); i++ {
+				if want := s.Levels[i].Leaf - s.Levels[i-1].Leaf; perLevel[i] != want {
+					e.viol("stat-level-leaves", "", map[string]interface{}{"stat": fmt.Sprintf("%+v", *s), "level": i, "leaves_by_table": want, "leaves_whose_id_lies_in_that_level": perLevel[i]})
+					break
+				}
+			}
+			e.ctx.Count("level_tables_checked_leaf_by_leaf", 1)
+			e.ctx.Max("levels_max", int64(len(s.Levels)))
+		}
+	}
 	e.ctx.Count("calls:Stat", 1)
 	return s
 }
@@ -820,6 +863,8 @@ func runLookupCase(ctx *Ctx, prop string, lc *LCase, caseIdx int) {
 	}
 	results := make([]perOpt, 16)
 	resultsLoaded := make([]perOpt, 16)
+	var resultGolden perOpt
+	goldenAt := -1
 	opts := allOptSets()
 	sampled := false
 	var prevEnv *lookupEnv
@@ -828,7 +873,7 @@ func runLookupCase(ctx *Ctx, prop string, lc *LCase, caseIdx int) {
 		if p.onlyCompl && !o.Complete() {
 			continue
 		}
-		if lc.Golden != nil && o != lc.Golden.Opt {
+		if lc.Golden != nil && o != lc.Golden.Opt && prop != "C13" {
 			continue
 		}
 		m := models[o.D]
@@ -886,7 +931,7 @@ func runLookupCase(ctx *Ctx, prop string, lc *LCase, caseIdx int) {
 				insts = append(insts, Inst{"proto-loaded", pl})
 			}
 		}
-		if lc.Golden != nil {
+		if lc.Golden != nil && o == lc.Golden.Opt {
 			gl, err, pv, stack := loadTrie(enc, lc.Golden.Stream)
 			if pv != nil || err != nil {
 				env.inst = "golden-loaded"
@@ -972,11 +1017,14 @@ func runLookupCase(ctx *Ctx, prop string, lc *LCase, caseIdx int) {
 			case "C10":
 				env.oracleC10(qs, false, true)
 			case "C13":
-				res := env.oracleC10(qs, ii <= 1, false)
+				res := env.oracleC10(qs, ii <= 1 || in.Name == "golden-loaded", false)
 				if ii == 0 {
 					results[oi] = perOpt{res, res != nil}
 				} else if ii == 1 {
 					resultsLoaded[oi] = perOpt{res, res != nil}
+				} else if in.Name == "golden-loaded" {
+					resultGolden = perOpt{res, res != nil}
+					goldenAt = oi
 				}
 			case "C14":
 				env.oracleC14(qs)
@@ -1018,10 +1066,148 @@ func runLookupCase(ctx *Ctx, prop string, lc *LCase, caseIdx int) {
 		}
 	}
 
+	// C14 in company: the first typed reads of a never-read instance are made by
+	// several goroutines at once (a trie shared by the request handlers of a
+	// server is first read exactly like that); each answer is compared with the
+	// supplied value.
+	if prop == "C14" && !lc.Exh && lc.Golden == nil && n >= 300 && !lc.Vals.IsNone() {
+		o := opts[caseIdx%16]
+		m := models[o.D]
+		if st, err, pv, _ := buildTrie(enc, lc.Keys, vslice, o.Opt()); err == nil && pv == nil {
+			const G = 8
+			kind := lc.Vals.Kind
+			bad := make([]string, G)
+			done := make(chan int, G)
+			start := make(chan struct{})
+			for g := 0; g < G; g++ {
+				go func(g int) {
+					defer func() {
+						if p := recover(); p != nil {
+							bad[g] = "panic: " + fmt.Sprint(p)
+						}
+						done <- g
+					}()
+					<-start
+					nr := len(m.RetKeys)
+					for t := 0; t < 300; t++ {
+						r := (g*7919 + t*(nr/300+1) + nr - 1 - t%2*(nr/2)) % nr
+						if r < 0 {
+							r += nr
+						}
+						k := m.RetKeys[r]
+						var tv int64
+						var f bool
+						switch kind {
+						case "i8":
+							x, ff := st.GetI8(k)
+							tv, f = int64(x), ff
+						case "i16":
+							x, ff := st.GetI16(k)
+							tv, f = int64(x), ff
+						case "i32":
+							x, ff := st.GetI32(k)
+							tv, f = int64(x), ff
+						case "i64":
+							tv, f = st.GetI64(k)
+						default:
+							return
+						}
+						if want := reflect.ValueOf(m.ValAt(r)).Int(); !f || tv != want {
+							bad[g] = fmt.Sprintf("typed getter on retained key %x: (%d,%v), supplied value %d", k, tv, f, want)
+							return
+						}
+					}
+				}(g)
+			}
+			close(start)
+			for g := 0; g < G; g++ {
+				<-done
+			}
+			for g := 0; g < G; g++ {
+				if bad[g] != "" {
+					e := &lookupEnv{ctx: ctx, prop: prop, lc: lc, opt: o, model: m, inst: "fresh, first read by 8 goroutines at once"}
+					e.viol("typed-getter-in-company", "", map[string]interface{}{"what": bad[g]})
+					break
+				}
+			}
+			ctx.Count("first_reads_by_8_goroutines", 1)
+		}
+	}
+
+	// C18 in company: several goroutines build and load their OWN tries at the
+	// same time (a server building one index per shard does this); each report
+	// must be what the same build reports when it runs alone.
+	if prop == "C18" && !lc.Exh && lc.Golden == nil && n >= 20 && caseIdx%3 == 0 {
+		const G = 6
+		solo := make([]string, G)
+		for g := 0; g < G; g++ {
+			if st, err, pv, _ := buildTrie(enc, lc.Keys, lc.Vals.Slice(), opts[(g*3)%16].Opt()); err == nil && pv == nil {
+				solo[g] = fmt.Sprintf("%+v", *st.Stat())
+			}
+		}
+		type pres struct{ bad string }
+		out := make(chan pres, G)
+		start := make(chan struct{})
+		for g := 0; g < G; g++ {
+			go func(g int, vals interface{}) {
+				r := pres{}
+				defer func() {
+					if p := recover(); p != nil {
+						r.bad = "panic: " + fmt.Sprint(p)
+					}
+					out <- r
+				}()
+				<-start
+				for round := 0; round < 4 && r.bad == ""; round++ {
+					st, err := trie.NewSlimTrie(enc, lc.Keys, vals, opts[(g*3)%16].Opt())
+					if err != nil {
+						return
+					}
+					if got := fmt.Sprintf("%+v", *st.Stat()); solo[g] != "" && got != solo[g] {
+						r.bad = "built concurrently: " + got + " alone: " + solo[g]
+						return
+					}
+					b, _ := st.Marshal()
+					ld, _ := trie.NewSlimTrie(enc, nil, nil)
+					for rep := 0; rep < 25; rep++ {
+						if ld.Unmarshal(b) != nil {
+							break
+						}
+						s := ld.Stat()
+						if got := fmt.Sprintf("%+v", *s); solo[g] != "" && got != solo[g] {
+							r.bad = "loaded concurrently: " + got + " alone: " + solo[g]
+							return
+						}
+					}
+				}
+			}(g, lc.Vals.Slice())
+		}
+		close(start)
+		for g := 0; g < G; g++ {
+			if r := <-out; r.bad != "" {
+				d := lc.describe()
+				d["what"] = truncate(r.bad, 600)
+				ctx.Violate("C18/stat-differs-when-built-in-company", d)
+			}
+		}
+		ctx.Count("concurrent_build_rounds", 1)
+	}
+
 	if prop == "C13" {
 		oracleC13(ctx, lc, qs, models, opts, "fresh", func(i int) ([]qres, bool) { return results[i].res, results[i].ok })
 		// the relation is about tries, however they came to be: the loaded ones too
 		oracleC13(ctx, lc, qs, models, opts, "loaded", func(i int) ([]qres, bool) { return resultsLoaded[i].res, resultsLoaded[i].ok })
+		// ... and a stream persisted by the pinned release takes the place of its
+		// option set among the freshly built ones
+		if goldenAt >= 0 {
+			oracleC13(ctx, lc, qs, models, opts, "golden-loaded", func(i int) ([]qres, bool) {
+				if i == goldenAt {
+					return resultGolden.res, resultGolden.ok
+				}
+				return results[i].res, results[i].ok
+			})
+			ctx.Count("relation_with_golden_stream", 1)
+		}
 	}
 }
 
